@@ -49,6 +49,8 @@ def programs(n):
     # equality assertion on whole arrays (two elements each)
     for kinds in (("S", "S", "S", "S"), ("S", "S", "K", "S")):
         P.append({"expr": ("op", "array_assert_eq", I(0), I(1), I(2), I(3)), "kinds": list(kinds)})
+    # packing a SECRET into the bits of IntMod(m) declares it a bitlen(m)-bit value (m = 2: a single bit)
+    P.append({"expr": ("op", "pack_intmod", I(0), I(1)), "kinds": ["M", "S"]})
     for bk in ("B", "Z"):
         P.append({"expr": ("op", "unpack_intmod", I(0), I(1), I(2), I(3)), "kinds": ["M", bk, bk, bk]})
     return P
@@ -77,6 +79,8 @@ def region(prog, vec, n):
     if name == "unpack_intmod":
         val = sum(b << i for i, b in enumerate(v[1:1 + (v[0] - 1).bit_length()]))
         return O.signs([v[0] - val])
+    if name == "pack_intmod":
+        return O.signs([v[1], 2 ** ((v[0] - 1).bit_length()) - v[1]])
     if name == "assert_positive":
         return O.signs([v[0], 2 ** n - v[0]])
     return O.signs([v[0], v[0] - 1])
@@ -247,7 +251,7 @@ def run(ctx):
     wide = [(17, REC.BN128), (65, REC.BLS12_381)] if not ctx.thorough else [(8, REC.BN128), (16, REC.BN128), (17, REC.BLS12_381), (33, REC.CURVE25519), (64, REC.BN128)]
     for n, p in wide:
         for prog in programs(n):
-            if prog["kinds"][0] == "M" or prog["expr"][1] == "array_assert_eq":
+            if (prog["kinds"][0] == "M" and prog["expr"][1] != "pack_intmod") or prog["expr"][1] == "array_assert_eq":
                 continue
             if len(prog["kinds"]) == 3:
                 vals_ = [-1, 0, 1, 2 ** (n - 1) - 1, 2 ** (n - 1) + 5, 2 ** n - 1, 2 ** n]
